@@ -8,6 +8,7 @@
     between two callbacks of the instrumentation).  The access sequences are those of the source
     (DESIGN.md, Appendix A, as amended by the fix: commits). *)
 From OCI Require Export Core.
+From OCI.gen Require Export Orderings.
 
 (** ** thread-local state *)
 
@@ -424,6 +425,15 @@ Definition crashes_now (e : env) (sh : shared) : bool :=
 
 Definition pub_incr (q : req) : N := match q_mode q with MSingle _ => 1 | _ => q_n q end.
 
+(** the ordering each atomic operation is performed with: the method of the counter (or the site of the
+    completed flag) that the pull calls, as translated from the source into [gen/Orderings.v] *)
+Definition single (q : req) : bool := match q_mode q with MSingle _ => true | _ => false end.
+Definition o_res (q : req) : ord := if single q then ord_counter_fetch_and_increment else ord_counter_fetch_and_add.
+Definition o_chkf (q : req) : ord := if single q then ord_completed_load_get else ord_completed_load_progress.
+Definition o_ldy (q : req) : ord := if single q then ord_yielded_read_get else ord_yielded_read_progress.
+Definition o_setf (q : req) : ord := if single q then ord_completed_store_get else ord_completed_store_fetch_n.
+Definition o_pub (q : req) : ord := if single q then ord_yielded_publish_single else ord_yielded_publish_chunk.
+
 Definition step (e : env) (c : cfg) (t : tid) : cfg :=
   let ts := c_pool c t in
   let sh := c_sh c in
@@ -438,18 +448,18 @@ Definition step (e : env) (c : cfg) (t : tid) : cfg :=
       match e_kind e with
       | KIter =>
           let n := pub_incr q in
-          commit c t (with_c sh (wadd b n)) (set_pc ts (PChkF q b)) (LAtom t SC AAdd n b) []
+          commit c t (with_c sh (wadd b n)) (set_pc ts (PChkF q b)) (LAtom t SC AAdd n b (o_res q)) []
       | _ =>
           let n := k_incr e q in
-          finish e c t (with_c sh (wadd b n)) ts (LAtom t SC AAdd n b) q (k_pull e q b)
+          finish e c t (with_c sh (wadd b n)) ts (LAtom t SC AAdd n b (o_res q)) q (k_pull e q b)
       end
   | PChkF q b =>
-      let l := LAtom t SF ALoad 0 (bN (s_f sh)) in
+      let l := LAtom t SF ALoad 0 (bN (s_f sh)) (o_chkf q) in
       if s_f sh then finish e c t sh ts l q (Ok PREnd)
       else commit c t sh (set_pc ts (PLdY q b)) l []
   | PLdY q b =>
       let y := s_y sh in
-      let l := LAtom t SY ALoad 0 y in
+      let l := LAtom t SY ALoad 0 y (o_ldy q) in
       if b =? y then commit c t sh (set_pc ts (PSrc q b [])) l []
       else if b <? y then finish e c t sh ts l q (Ok PREnd)
       else commit c t sh (set_pc ts (PChkF q b)) l []
@@ -476,7 +486,7 @@ Definition step (e : env) (c : cfg) (t : tid) : cfg :=
         | MBuf _, None => commit c t sh' (set_pc ts (PPub q b got)) l []
         end
   | PSetF q b got =>
-      let l := LAtom t SF AStore 1 0 in
+      let l := LAtom t SF AStore 1 0 (o_setf q) in
       let sh' := with_f sh true in
       match q_mode q with
       | MSingle _ => finish e c t sh' ts l q (Ok PREnd)
@@ -485,7 +495,7 @@ Definition step (e : env) (c : cfg) (t : tid) : cfg :=
   | PPub q b got =>
       let old := s_y sh in
       let n := pub_incr q in
-      let l := LAtom t SY AAdd n old in
+      let l := LAtom t SY AAdd n old (o_pub q) in
       let sh' := with_y sh (wadd old n) in
       let vs := rev got in
       match q_mode q with
@@ -499,7 +509,7 @@ Definition step (e : env) (c : cfg) (t : tid) : cfg :=
           else finish e c t sh' ts l q (Panic PkAssert)
       end
   | PUnw q _ got =>
-      let l := LAtom t SF AStore 1 0 in
+      let l := LAtom t SF AStore 1 0 ord_completed_store_unwind in
       let sh' := with_f sh true in
       let vs := rev got in
       let acc := rev (t_acc ts) in
@@ -517,13 +527,13 @@ Definition step (e : env) (c : cfg) (t : tid) : cfg :=
       let idle := set_pc ts PIdle in
       match e_kind e with
       | KSlice | KRange =>
-          commit c t (with_c sh (e_len e)) idle (LAtom t SC AStore (e_len e) 0) [ERet t RUnit []]
+          commit c t (with_c sh (e_len e)) idle (LAtom t SC AStore (e_len e) 0 ord_counter_store) [ERet t RUnit []]
       | KIter =>
-          commit c t (with_f sh true) idle (LAtom t SF AStore 1 0) [ERet t RUnit []]
+          commit c t (with_f sh true) idle (LAtom t SF AStore 1 0 ord_completed_store_early_exit) [ERet t RUnit []]
       | _ =>
           let b := s_c sh in
           let n := N.min (e_len e) (e_len e) in
-          let l := LAtom t SC AAdd n b in
+          let l := LAtom t SC AAdd n b ord_counter_fetch_and_add in
           match k_fetch_n e (e_len e) b with
           | Ok PREnd => commit c t (with_c sh (wadd b n)) idle l [ERet t RUnit []]
           | Ok (PRGot _ rs _) => commit c t (with_c sh (wadd b n)) idle l [ERet t RUnit (drops_after e 0 rs)]
@@ -534,17 +544,17 @@ Definition step (e : env) (c : cfg) (t : tid) : cfg :=
       let idle := set_pc ts PIdle in
       match e_kind e with
       | KIter =>
-          let l := LAtom t SF ALoad 0 (bN (s_f sh)) in
+          let l := LAtom t SF ALoad 0 (bN (s_f sh)) ord_completed_load_try_get_len in
           if s_f sh then commit c t sh idle l [ERet t (len_res hm (Some 0)) []]
           else match e_hint e with
                | HExact => commit c t sh (set_pc ts (PLen2 hm)) l []
                | _ => commit c t sh idle l [ERet t (len_res hm None) []]
                end
       | _ =>
-          commit c t sh idle (LAtom t SC ALoad 0 (s_c sh)) [ERet t (len_res hm (Some (k_len e (s_c sh)))) []]
+          commit c t sh idle (LAtom t SC ALoad 0 (s_c sh) ord_counter_current) [ERet t (len_res hm (Some (k_len e (s_c sh)))) []]
       end
   | PLen2 hm =>
-      commit c t sh (set_pc ts PIdle) (LAtom t SC ALoad 0 (s_c sh))
+      commit c t sh (set_pc ts PIdle) (LAtom t SC ALoad 0 (s_c sh) ord_counter_current)
              [ERet t (len_res hm (Some (k_len e (s_c sh)))) []]
   end.
 
@@ -569,7 +579,7 @@ Definition final_step (e : env) (c : cfg) (t : tid) (f : final) : cfg :=
   let sh := c_sh c in
   let len := e_len e in
   let cv := s_c sh in
-  let ldc := LAtom t SC ALoad 0 cv in
+  let ldc := LAtom t SC ALoad 0 cv ord_counter_current in
   let fin (sh' : shared) (ls : list label) (r : res) (d : list drops) :=
     {| c_sh := sh'; c_pool := c_pool c; c_trace := EFinal f r d :: c_trace c;
        c_labels := rev ls ++ c_labels c |} in
@@ -596,7 +606,7 @@ Definition final_step (e : env) (c : cfg) (t : tid) (f : final) : cfg :=
   | FIntoSeq k, KArray =>
       let m := N.min cv len in
       let '(r, d) := seq_res e m (len - m) k in
-      fin (with_c sh len) [ldc; LAtom t SC AStore len 0; LAtom t SC ALoad 0 len] r d
+      fin (with_c sh len) [ldc; LAtom t SC AStore len 0 ord_counter_store; LAtom t SC ALoad 0 len ord_counter_current] r d
   | FIntoSeq k, KIter =>
       let m := N.min (s_cur sh) len in
       let '(r, d) := seq_res e m (len - m) k in fin sh [] r d
